@@ -36,6 +36,7 @@ const (
 	c16Completed              // Completed message
 	c16CleanEOF               // stream ended cleanly (io.EOF)
 	c16Cancelled              // the request's context is cancelled during the attempt
+	c16RemoteCanceled         // the remote side ends the stream with Canceled (tier2 shutting down), the request lives on
 	c16Outcomes
 )
 
@@ -100,13 +101,15 @@ func (s *c16Stream) Recv() (*pbssinternal.ProcessRangeResponse, error) {
 	case c16Cancelled:
 		s.s.cancel()
 		return nil, status.Error(codes.Canceled, "context canceled")
+	case c16RemoteCanceled:
+		return nil, status.Error(codes.Canceled, "context canceled")
 	}
 	sym.Unreachable("unknown-outcome")
 	return nil, io.EOF
 }
 
 func c16Transient(o int) bool {
-	return o == c16CallUnavailable || o == c16DropUnavailable || o == c16Overloaded || o == c16Internal || o == c16Timeout
+	return o == c16CallUnavailable || o == c16DropUnavailable || o == c16Overloaded || o == c16Internal || o == c16Timeout || o == c16RemoteCanceled
 }
 
 // VerifC16Worker: the real RemoteWorker.Work / work retry loop is run against
